@@ -332,6 +332,7 @@ fn model_step(m: &mut Model, op: &Op, out: &Outcome, enc: &BTreeMap<B32, OwnedEv
                 StoreOutcome::Deleted => ex.refusals.contains(&Refusal::Deleted),
                 StoreOutcome::Replaced => ex.refusals.contains(&Refusal::Replaced) || ex.tie,
                 StoreOutcome::InvalidDelete => ex.refusals.contains(&Refusal::InvalidDelete) || ex.malformed,
+                StoreOutcome::Other(_) => ex.engine_refusal,
                 _ => false,
             }
         }
@@ -1205,6 +1206,7 @@ pub fn run_conc_full(trace: &Trace, scratch: PathBuf, verbose: bool, known_open:
             let bad = match &r.out {
                 Outcome::Has(Err(e)) | Outcome::Get(Err(e)) | Outcome::Removed(Err(e)) | Outcome::Stats(Err(e)) | Outcome::Synced(Err(e)) => Some(e.clone()),
                 Outcome::Query(QueryOutcomeC::OtherErr(e)) | Outcome::Query(QueryOutcomeC::Panic(e)) => Some(e.clone()),
+                Outcome::Store(StoreOutcome::Other(_)) if matches!(&r.op, Op::Store(e) if model.store_expect(e).engine_refusal) => None,
                 Outcome::Store(StoreOutcome::Panic(p)) | Outcome::Store(StoreOutcome::Other(p)) => Some(p.clone()),
                 _ => None,
             };
